@@ -78,4 +78,18 @@ partial def bounds (j : Json) (acc : List (Nat × Bytes)) : List (Nat × Bytes) 
     | _ => acc
   | _ => acc
 
+/-- every `use("lit")` call node: (site, lit) -/
+partial def useSites (j : Json) (acc : List (Nat × Bytes)) : List (Nat × Bytes) :=
+  match j with
+  | .arr a => a.foldl (fun acc x => useSites x acc) acc
+  | .obj kvs =>
+    let acc :=
+      if J.str (J.get j "t") == "call" && J.hx (J.get j "n") == "use".toUTF8.toList then
+        match (J.arr (J.get j "args")).toList with
+        | [a] => if J.str (J.get a "t") == "str" then (J.nat (J.get j "site"), J.hx (J.get a "v")) :: acc else acc
+        | _ => acc
+      else acc
+    kvs.foldl (fun acc _ v => useSites v acc) acc
+  | _ => acc
+
 end AstJson
